@@ -30,21 +30,26 @@ func scenLogs(c *hx.Ctx, in Input) {
 	t := newTable()
 	var tests []string
 	probe := func(d []byte, member bool) {
-		t.add(d)
+		idx := t.index(d)
 		got := bloom.Test(d)
 		if member && !got {
 			c.Fail("bloom:missing-log-item", "LogsBloom tests negative for an address/topic of one of its logs", in, hx.Hex(d), "Test = true")
 		}
 		p := positions(d)
-		tests = append(tests, fmt.Sprintf("(%s, %s, [%d; %d; %d])", hx.CoqBytes(d), hx.CoqBool(got), p[0], p[1], p[2]))
+		tests = append(tests, fmt.Sprintf("(%d, %s, [%d; %d; %d])", idx, hx.CoqBool(got), p[0], p[1], p[2]))
 		if got {
 			c.Count("logs:test-positive")
 		} else {
 			c.Count("logs:test-negative")
 		}
 	}
+	var ls []string
 	for _, l := range logs {
-		t.addLog(l)
+		var ts []string
+		for _, x := range l.Topics {
+			ts = append(ts, fmt.Sprint(t.index(x)))
+		}
+		ls = append(ls, fmt.Sprintf("(%d, %s, %s)", t.index(l.Addr), hx.CoqList(ts), hx.CoqBytes(l.Data)))
 		for _, it := range items(l) {
 			probe(it, true)
 			if r.Intn(3) == 0 {
@@ -54,7 +59,7 @@ func scenLogs(c *hx.Ctx, in Input) {
 			}
 		}
 	}
-	for i := 0; i < 3; i++ {
+	for i := 0; i < 2; i++ {
 		d := make([]byte, []int{20, 32, 0, 5}[r.Intn(4)])
 		r.Read(d)
 		probe(d, false)
@@ -63,7 +68,7 @@ func scenLogs(c *hx.Ctx, in Input) {
 	if n > 0 {
 		c.Nontrivial(fmt.Sprintf("logs:%x", bloom[:]))
 	}
-	c.Case(fmt.Sprintf("CLogs %s %s %s %s", t.coq(), coqLogs(logs), hx.CoqBytes(bloom[:]), hx.CoqList(tests)),
+	c.Case(fmt.Sprintf("CLogs %s %s %s %s", t.coq(), hx.CoqList(ls), sparse(bloom[:]), hx.CoqList(tests)),
 		map[string]interface{}{"kind": "logs", "seed": in.Seed, "logs": n})
 }
 
